@@ -9,17 +9,20 @@ def plan(tier, seed):
     if tier == "quick":
         fl = [H("c13::sep_f64_%s_4" % c, D, "alphabet {+-019._ex}, len<=4") for c in ("t", "i", "l", "iltc")]
         ints = [H("c13::sep_u32_t_5", D + " (integers)", "len<=5"), H("c13::sep_i32_iltc_5", D + " (integers)", "len<=5")]
-        groups = [KGroup("F", fl, timeout=800, jobs=4, mem_gb=14, stubbing=True, label="floats"), KGroup("F", ints, timeout=800, jobs=2, mem_gb=14, label="integers")]
+        ints += [H("c13::sep_i32_%s_4" % c, D + " (integers)", "alphabet {+-019_x}, len<=4") for c in ALL15]
+        groups = [KGroup("F", fl, timeout=800, jobs=4, mem_gb=14, stubbing=True, label="floats"), KGroup("F", ints, timeout=800, jobs=8, mem_gb=14, label="integers, all 14 flag combinations")]
     else:
-        fl = [H("c13::sep_f64_%s_5" % c, D, "len<=5") for c in ALL15]
-        fl += [H("c13::sep_f64_%s_6" % c, D, "len<=6") for c in ("iltc", "i", "t", "l")] + [H("c13::sep_f32_iltc_4", D, "len<=4")]
+        # len 5/6 variants exist in c13.rs but ran out of memory (14 GB) or time: not part of the check
+        # sep_f64_ic_4 is killed at the 14 GB limit: the one combination not decided for floats
+        fl = [H("c13::sep_f64_%s_4" % c, D, "len<=4") for c in ALL15 if c != "ic"] + [H("c13::sep_f32_iltc_4", D, "len<=4")]
         ints = [H("c13::sep_%s" % n, D + " (integers)", "len<=5") for n in ("u32_i_5", "u32_l_5", "u32_t_5", "i32_iltc_5", "u8_ilt_5", "i64_itc_5", "u64_lc_5")]
-        groups = [KGroup("F", fl, timeout=7200, jobs=12, mem_gb=12, stubbing=True, label="floats"), KGroup("F", ints, timeout=7200, jobs=7, mem_gb=14, label="integers")]
+        ints += [H("c13::sep_i32_%s_4" % c, D + " (integers)", "len<=4") for c in ALL15]
+        groups = [KGroup("F", fl, timeout=7200, jobs=5, mem_gb=14, stubbing=True, label="floats, 13 flag combinations"), KGroup("F", ints, timeout=7200, jobs=7, mem_gb=14, label="integers, all 14 flag combinations")]
     return {
         "kani": groups,
         "functions_encoded": ["lexical_util::skip (all peek_* variants selected by the format)", "lexical_parse_float::parse::parse_number", "lexical_parse_integer::algorithm"],
         "bounds": ["uniform (same flags for integer/fraction/exponent) internal/leading/trailing/consecutive combinations, separator '_', decimal; strings over the alphabet {+ - 0 1 9 . _ e x} up to the stated length, complete parser"],
-        "outside_claim": ["mixed per-component separator formats", "inputs longer than 6 bytes - in particular > 19-digit inputs with separators (big-integer re-parse) and the 8-digit fast path", "special_digit_separator", "radix 16", "partial parser"],
+        "outside_claim": ["mixed per-component separator formats", "inputs longer than 4 bytes (floats) / 5 bytes (integers) - in particular > 19-digit inputs with separators (big-integer re-parse) and the 8-digit fast path", "special_digit_separator", "radix 16", "partial parser"],
         "stubs_and_assumes": ["numeric back end stubbed (value compared through the digit decomposition)"],
         "assumptions": ["separator classification as documented in docs/DigitSeparators.md (leading/trailing/internal by neighbouring control characters, per component)"],
     }
